@@ -6,6 +6,21 @@ from .type import Type
 from .type_boolean import BooleanType
 from ..settings import Numeric
 
+def _cast(dtype, value):
+    """ Cast value of an anonymous number to the datatype of the other operand
+
+    Decimal numbers compared with integers stay decimal (int('3.0') fails, int(3.5) truncates)
+    """
+    if dtype is int:
+        if isinstance(value, str):
+            try:
+                return int(value)
+            except ValueError:
+                pass
+        value = float(value)
+        return int(value) if value.is_integer() else value
+    return dtype(value)
+
 class NumberType(Type):
     dtype = None
     typename: str = 'number'
@@ -20,12 +35,12 @@ class NumberType(Type):
             else:
                 if other.dtype in [int,float]:
                     self.convert(other.unit)
-                self.value = other.dtype(self.value)
+                self.value = _cast(other.dtype, self.value)
         elif other.dtype not in [int,float,str,bool]:
             # if other node datatype is unknown
             if self.dtype in [int,float]:
                 other.convert(self.unit)
-            other.value = self.dtype(other.value)
+            other.value = _cast(self.dtype, other.value)
         elif type(self)==type(other):
             # if both datatypes are known
             if self.dtype in [int,float]:
